@@ -68,4 +68,206 @@ theorem norm_toComps (r : RComplex) : norm r.toComps = some r := by
 theorem matchesComplex_toComps (r : RComplex) (p : Ctx) : matchesComplex r.toComps p = mRC r p := by
   simp [matchesComplex, norm_toComps]
 
+
+/-! ### walks against a subselector that starts with a combinator answer `false` -/
+
+theorem walk_comb_head (af : Bool) (sup : Compound → Compound → Complex → Bool) (prev : Option Rel)
+    (a : Complex) (cb : Comb) (X : Complex) : walk af sup prev a (.comb cb :: X) = false := by
+  unfold walk
+  split
+  · rfl
+  · rfl
+  · rfl
+  · split <;> rfl
+  · split <;> rfl
+
+theorem superComplex_comb_head (f : Nat) (af : Bool) (A : Complex) (cb : Comb) (X : Complex) :
+    superComplex f af A (.comb cb :: X) = false := by
+  cases f with
+  | zero => rfl
+  | succ f =>
+    unfold superComplex
+    split
+    · rfl
+    · exact walk_comb_head _ _ _ _ _ _
+
+theorem matchesList_toComps (l : List RComplex) (q : Ctx) :
+    matchesList (l.map RComplex.toComps) q = mArgs l q := by
+  rw [mArgs_eq_any]
+  simp only [matchesList, List.any_map, Function.comp_def, matchesComplex_toComps, mRC]
+
+/-! ### the four levels, by induction on the fuel -/
+
+def CompoundSound (f : Nat) : Prop :=
+  ∀ (A B : Compound) (ps : Complex) (q : Ctx), superCompound f false A B ps = true → mComp B q = true →
+    Hps ps B q → mComp A q = true
+def PseudoSound (f : Nat) : Prop :=
+  ∀ (k : PName) (arg : List RComplex) (B : Compound) (ps : Complex) (q : Ctx),
+    superPseudo f false k arg B ps = true → mComp B q = true → Hps ps B q → mSimple (.sel k arg) q = true
+def ComplexSound (f : Nat) : Prop :=
+  ∀ (A B : Complex) (p : Ctx), superComplex f false A B = true → matchesComplex B p = true →
+    matchesComplex A p = true
+def ListSound (f : Nat) : Prop :=
+  ∀ (L1 L2 : SelList) (p : Ctx), superList f false L1 L2 = true → matchesList L2 p = true →
+    matchesList L1 p = true
+
+theorem compoundSound_succ (f : Nat) (hp : PseudoSound f) : CompoundSound (f + 1) := by
+  intro A B ps q h hB hps
+  unfold superCompound at h
+  simp only [Bool.and_eq_true, List.all_eq_true] at h
+  rw [mComp_eq_all, List.all_eq_true]
+  intro s hs
+  have := h.1 s hs
+  cases s with
+  | sel k arg => exact hp k arg B ps q this hB hps
+  | univ => exact simpleSuperOfCompound_sound _ B q this hB
+  | type n => exact simpleSuperOfCompound_sound _ B q this hB
+  | cls n => exact simpleSuperOfCompound_sound _ B q this hB
+  | id n => exact simpleSuperOfCompound_sound _ B q this hB
+  | attr n v => exact simpleSuperOfCompound_sound _ B q this hB
+  | pclass n => exact simpleSuperOfCompound_sound _ B q this hB
+  | pelem n => exact simpleSuperOfCompound_sound _ B q this hB
+  | placeholder n => exact simpleSuperOfCompound_sound _ B q this hB
+  | parent x => exact simpleSuperOfCompound_sound _ B q this hB
+
+theorem listSound_succ (f : Nat) (hc : ComplexSound f) : ListSound (f + 1) := by
+  intro L1 L2 p h hB
+  unfold superList at h
+  unfold matchesList at hB ⊢
+  rw [List.any_eq_true] at hB ⊢
+  obtain ⟨c1, hc1, hm⟩ := hB
+  have := (List.all_eq_true.1 h) c1 hc1
+  rw [List.any_eq_true] at this
+  obtain ⟨c2, hc2, hs⟩ := this
+  exact ⟨c2, hc2, hc c2 c1 p hs hm⟩
+
+theorem complexSound_succ (f : Nat) (hc : CompoundSound f) : ComplexSound (f + 1) := by
+  intro A B p h hB
+  unfold superComplex at h
+  split at h
+  · cases h
+  · obtain ⟨q, hq⟩ := (matchesComplex_iff B p).1 hB
+    obtain ⟨q', hq', _⟩ := walk_sound (fun c d ps => superCompound f false c d ps) (fun _ => True)
+      (fun c d ps q _ hs hd hps => hc c d ps q hs hd hps) A.length A none B (Nat.le_refl _)
+      (fun _ _ => trivial) (by intro hs; rcases hs with hs | hs | hs <;> cases hs) h q p hq
+    exact (matchesComplex_iff A p).2 ⟨q', hq'⟩
+
+theorem type_not_both {n m : Name} {q : Ctx} (h1 : mSimple (.type n) q = true) (h2 : mSimple (.type m) q = true) :
+    n = m := by
+  simp only [mSimple, decide_eq_true_eq] at h1 h2
+  rw [← h1, ← h2]
+
+theorem id_not_both {n m : Name} {q : Ctx} (h1 : mSimple (.id n) q = true) (h2 : mSimple (.id m) q = true) :
+    n = m := by
+  simp only [mSimple, decide_eq_true_eq] at h1 h2
+  rw [h1] at h2; injection h2
+
+theorem pseudoSound_succ (f : Nat) (hc : ComplexSound f) (hl : ListSound f) : PseudoSound (f + 1) := by
+  intro k arg B ps q h hB hps
+  unfold superPseudo at h
+  -- the `is` family: one proof for the four names
+  have isFam : k ≠ .not →
+      ((B.any fun t => match t with
+          | .sel k2 arg2 => (k2 == k) && superList f false (arg.map RComplex.toComps) (arg2.map RComplex.toComps)
+          | _ => false) ||
+        arg.any fun c1 => superComplex f false c1.toComps (ps ++ [.compound B])) = true →
+      mArgs arg q = true := by
+    intro hk hh
+    rw [Bool.or_eq_true] at hh
+    rcases hh with hh | hh
+    · rw [List.any_eq_true] at hh
+      obtain ⟨t, ht, hm⟩ := hh
+      cases t with
+      | sel k2 arg2 =>
+        simp only [Bool.and_eq_true, beq_iff_eq] at hm
+        obtain ⟨hk2, hsl⟩ := hm
+        subst hk2
+        have ht' := mComp_mem hB ht
+        have h2 : mArgs arg2 q = true := by
+          cases k2 <;> simp_all [mSimple]
+        rw [← matchesList_toComps] at h2 ⊢
+        exact hl _ _ q hsl h2
+      | _ => simp at hm
+    · rw [List.any_eq_true] at hh
+      obtain ⟨c1, hc1, hs⟩ := hh
+      have hmatch : matchesComplex (ps ++ [.compound B]) q = true := by
+        unfold Hps at hps
+        split at hps
+        · rename_i cb X
+          simp only [List.cons_append] at hs
+          rw [superComplex_comb_head] at hs; cases hs
+        · exact hps
+      have := hc _ _ q hs hmatch
+      rw [matchesComplex_toComps] at this
+      rw [mArgs_eq_any, List.any_eq_true]
+      exact ⟨c1, hc1, by simpa [mRC] using this⟩
+  cases k with
+  | not =>
+    simp only at h
+    simp only [mSimple]
+    cases hm : mArgs arg q with
+    | false => rfl
+    | true =>
+      exfalso
+      rw [mArgs_eq_any, List.any_eq_true] at hm
+      obtain ⟨r, hr, hrm⟩ := hm
+      have hrc : mRC r q = true := by simpa [mRC] using hrm
+      have := (List.all_eq_true.1 h) r hr
+      rw [List.any_eq_true] at this
+      obtain ⟨t, ht, hcond⟩ := this
+      have ht' := mComp_mem hB ht
+      simp only [Bool.and_eq_true] at hrm
+      cases t with
+      | type n =>
+        simp only at hcond
+        rw [List.any_eq_true] at hcond
+        obtain ⟨s1, hs1, hc1⟩ := hcond
+        simp only [Bool.and_eq_true, decide_eq_true_eq] at hc1
+        have hs1m := mComp_mem hrm.1 hs1
+        cases s1 <;> simp [Simple.isType] at hc1
+        rename_i m
+        exact hc1 (by rw [type_not_both hs1m ht'])
+      | id n =>
+        simp only at hcond
+        rw [List.any_eq_true] at hcond
+        obtain ⟨s1, hs1, hc1⟩ := hcond
+        simp only [Bool.and_eq_true, decide_eq_true_eq] at hc1
+        have hs1m := mComp_mem hrm.1 hs1
+        cases s1 <;> simp [Simple.isId] at hc1
+        rename_i m
+        exact hc1 (by rw [id_not_both hs1m ht'])
+      | sel k2 arg2 =>
+        simp only [Bool.and_eq_true, beq_iff_eq] at hcond
+        obtain ⟨hk2, hsl⟩ := hcond
+        subst hk2
+        have hml : matchesList [r.toComps] q = true := by
+          simp [matchesList, matchesComplex_toComps, hrc]
+        have := hl _ _ q hsl hml
+        rw [matchesList_toComps] at this
+        simp [mSimple, this] at ht'
+      | univ => simp at hcond
+      | cls n => simp at hcond
+      | attr n v => simp at hcond
+      | pclass n => simp at hcond
+      | pelem n => simp at hcond
+      | placeholder n => simp at hcond
+      | parent x => simp at hcond
+  | is => simp only at h; simp only [mSimple]; exact isFam (by decide) h
+  | where_ => simp only at h; simp only [mSimple]; exact isFam (by decide) h
+  | «matches» => simp only at h; simp only [mSimple]; exact isFam (by decide) h
+  | any => simp only at h; simp only [mSimple]; exact isFam (by decide) h
+
+theorem sound_all : ∀ (f : Nat), CompoundSound f ∧ PseudoSound f ∧ ComplexSound f ∧ ListSound f := by
+  intro f
+  induction f with
+  | zero =>
+    refine ⟨?_, ?_, ?_, ?_⟩
+    · intro A B ps q h; simp [superCompound] at h
+    · intro k arg B ps q h; simp [superPseudo] at h
+    · intro A B p h; simp [superComplex] at h
+    · intro L1 L2 p h; simp [superList] at h
+  | succ f ih =>
+    obtain ⟨h1, h2, h3, h4⟩ := ih
+    exact ⟨compoundSound_succ f h2, pseudoSound_succ f h3 h4, complexSound_succ f h1, listSound_succ f h3⟩
+
 end Grass.Selector
